@@ -202,24 +202,24 @@ def run(chk):
     # ---- wake.exception: a reader does not go (back) to sleep on a stream that already failed -----------------------------------------------------
     # set_exception() wakes the registered waiter; a reader that was woken without data (end of an http chunk) and has not run yet has none, so the
     # error recorded in between is seen only if the reader looks at it before it waits again.
-    wt = repo.func(MOD, f"{SR}._wait")
-    mk = [c for c, _b in K.exprs(wt, "self._loop.create_future()")]
-    if not mk:
-        chk.analysis_error("C08.wake.exception: the waiter future of StreamReader._wait was not found")
-    elif PC.has_lit(PC.pc(mk[0]), "self._exception is None", True) is not None or PC.has_lit(PC.pc(mk[0]), "self._exception is not None", False) is not None:
-        chk.ok("C08.wake.exception", mk[0], "_wait() raises the recorded exception instead of registering a new waiter")
-    else:
-        bad = []
-        for name, m in sr.methods.items():
-            for lp in [l for l in ast.walk(m.node) if isinstance(l, ast.While)]:
-                if any(M.contains(a, "self._wait($F)") for a in prog.awaits_in(lp)) and "self._exception" not in norm.raw(lp.test):
-                    bad.append((name, lp))
-        if not bad:
-            chk.ok("C08.wake.exception", wt, "every loop around _wait() tests self._exception before it waits again")
-        for name, lp in bad:
-            chk.violation("C08.wake.exception", lp, K.short(lp, 70), "if self._exception is not None: raise self._exception  (in _wait(), before the waiter is created)",
-                          f"{name}() goes back to waiting after a data-less wake-up (end of an http chunk) without looking at an exception recorded meanwhile: set_exception() found no waiter to wake, nothing will - "
-                          "a truncated gzip body in intact chunked framing hangs resp.read() when the last chunk and the terminator arrive in one TCP read")
+    nwx = 0
+    for name, m in sr.methods.items():
+        for mk in [c for c, _b in K.exprs(m, "self._loop.create_future()")]:
+            nwx += 1
+            st_ = K.stmt_of(mk)
+            if PC.has_lit(PC.pc(st_), "self._exception is None", True) is not None or PC.has_lit(PC.pc(st_), "self._exception is not None", False) is not None:
+                chk.ok("C08.wake.exception", mk, f"{name}() raises the recorded exception instead of registering a new waiter")
+                continue
+            # a private wait primitive may leave the test to every loop around it
+            callers = [(cn, lp) for cn, cm in sr.methods.items() for lp in ast.walk(cm.node) if isinstance(lp, ast.While) and any(M.contains(a, f"self.{name}($F)") for a in prog.awaits_in(lp))]
+            if name.startswith("_") and callers and all("self._exception" in norm.raw(lp.test) for _cn, lp in callers):
+                chk.ok("C08.wake.exception", mk, f"every loop around {name}() tests self._exception before it waits again")
+                continue
+            where = f"{callers[0][0]}() goes back to waiting" if callers else f"{name}() waits"
+            chk.violation("C08.wake.exception", mk, K.short(st_, 70), "if self._exception is not None: raise self._exception  (before the waiter is created)",
+                          f"{where} without looking at an exception recorded meanwhile: set_exception() wakes the waiter that is registered at that moment and nobody else - "
+                          "a truncated gzip body in intact chunked framing hangs resp.read() when the last chunk and the terminator arrive in one TCP read; wait_eof() on a stream that already failed never returns")
+    chk.expect_count("C08.wake.exception", nwx, 2, "waiter futures created by StreamReader")
     for q, rel in ((MOD, "DataQueue"), (WS, "WebSocketDataQueue")):
         m = 0
         c = repo.cls(q, rel)
